@@ -64,6 +64,9 @@ func VHJSONLoad() {
 
 func VHHistory() {
 	q := NewWith[int](vl.Cmp)
+	if v.CfgOr("ctor", 0) == 1 { // the default-comparator constructor (cmp.Compare); only meaningful with cmp=0
+		q = New[int]()
+	}
 	binaryheap.VHeapHistory(binaryheap.VHeapLike{
 		Push: func(xs ...int) {
 			for _, x := range xs {
